@@ -297,6 +297,15 @@ class Run:
     inp_digest: bytes = attrs.field(init=False, default=b"")
     """The input digest, which some steps may use to decide whether cached results are valid."""
 
+    inp_hashes_at_start: dict = attrs.field(init=False, factory=dict)
+    """The hashes of the inputs as they were right before the command was launched, keyed by path.
+
+    After the command, the inputs are compared with these,
+    not with the hashes in the workflow at that time:
+    another job may have recorded a change in the meantime,
+    which would otherwise hide that this step read the old content.
+    """
+
     out_missing: list[str] = attrs.field(init=False, factory=list)
     """List of expected output files that were not created."""
 
